@@ -62,9 +62,11 @@ fn main() {
             let n: u64 = arg_val(&args, "--of").and_then(|s| s.parse().ok()).unwrap_or(1);
             let out = arg_val(&args, "--out").expect("--out");
             let only_case = arg_val(&args, "--case").and_then(|s| s.parse().ok());
+            let resume_after: Option<u64> = arg_val(&args, "--resume-after").and_then(|s| s.parse().ok());
             limit_memory();
-            start_watchdog(if tier == Tier::Quick { 60_000 } else { 180_000 });
+            start_watchdog(check.meta.watchdog_ms(tier));
             let mut c = Ctx::new(check.meta.id, tier, seed, (i, n), only_case);
+            c.resume_after = resume_after;
             c.flush_to = Some(std::path::PathBuf::from(&out));
             (check.run)(&mut c);
             c.flush();
@@ -133,30 +135,44 @@ fn run_parent(check: &Check, tier: Tier, seed: u64, shards: u64, only_case: Opti
         let exe = std::env::current_exe().expect("current_exe");
         let dir = std::env::temp_dir().join(format!("ilv-{}-{}-{}", check.meta.id, std::process::id(), seed));
         let _ = std::fs::create_dir_all(&dir);
-        let mut kids = Vec::new();
-        for i in 0..shards {
-            let out = dir.join(format!("shard{i}.json"));
-            let log = std::fs::File::create(dir.join(format!("shard{i}.log"))).expect("log");
-            let child = Command::new(&exe)
-                .args(["shard", check.meta.id, "--tier", tier.name(), "--seed", &seed.to_string(), "--shard", &i.to_string(), "--of", &shards.to_string(), "--out"])
-                .arg(&out)
-                .stdout(Stdio::null())
-                .stderr(Stdio::from(log))
-                .spawn()
-                .expect("spawn shard");
-            kids.push((i, child, out));
-        }
-        for (i, mut child, out) in kids {
+        // every shard is a fresh process; a shard killed by its watchdog (an engine call that
+        // does not return cannot be interrupted in-process) is respawned after the hung case
+        let spawn = |i: u64, gen: u32, resume: Option<u64>| {
+            let out = dir.join(format!("shard{i}.{gen}.json"));
+            let logp = dir.join(format!("shard{i}.{gen}.log"));
+            let log = std::fs::File::create(&logp).expect("log");
+            let mut cmd = Command::new(&exe);
+            cmd.args(["shard", check.meta.id, "--tier", tier.name(), "--seed", &seed.to_string(), "--shard", &i.to_string(), "--of", &shards.to_string(), "--out"]).arg(&out);
+            if let Some(k) = resume {
+                cmd.args(["--resume-after", &k.to_string()]);
+            }
+            let child = cmd.stdout(Stdio::null()).stderr(Stdio::from(log)).spawn().expect("spawn shard");
+            (i, gen, child, out, logp)
+        };
+        let mut kids: std::collections::VecDeque<_> = (0..shards).map(|i| spawn(i, 0, None)).collect();
+        while let Some((i, gen, mut child, out, logp)) = kids.pop_front() {
             let st = child.wait().expect("wait");
             let partial = std::fs::read(&out).ok().and_then(|b| serde_json::from_slice::<Report>(&b).ok());
             if let Some(r) = partial {
                 report.merge(r);
             }
             if !st.success() {
-                let log = std::fs::read_to_string(dir.join(format!("shard{i}.log"))).unwrap_or_default();
+                let log = std::fs::read_to_string(&logp).unwrap_or_default();
                 let tail: String = log.lines().rev().take(3).collect::<Vec<_>>().join(" | ");
-                report.inconclusive.push(format!("shard {i} aborted ({st}); its remaining cases are inconclusive: {tail}"));
-                *report.counters.entry("shards_aborted".into()).or_insert(0) += 1;
+                let hung_case = log.lines().rev().find_map(|l| l.strip_prefix("WATCHDOG: ").and_then(|r| r.rsplit("at case ").next()).and_then(|k| k.trim().parse::<u64>().ok()));
+                match hung_case {
+                    Some(k) if gen < 40 && k != u64::MAX => {
+                        *report.counters.entry("cases_hung_or_crashed".into()).or_insert(0) += 1;
+                        if report.inconclusive.len() < 50 {
+                            report.inconclusive.push(format!("case {k}: no progress within the watchdog limit (inconclusive, skipped)"));
+                        }
+                        kids.push_back(spawn(i, gen + 1, Some(k)));
+                    }
+                    _ => {
+                        report.inconclusive.push(format!("shard {i} aborted ({st}); its remaining cases are inconclusive: {tail}"));
+                        *report.counters.entry("shards_aborted".into()).or_insert(0) += 1;
+                    }
+                }
             }
         }
         let _ = std::fs::remove_dir_all(&dir);
